@@ -19,7 +19,7 @@ ASSUMPTIONS = [
 
 def params(tier):
     if tier == "quick":
-        return {"grammar": "core", "size": 3, "depth": 3}
+        return {"grammar": "core", "size": 3, "depth": 3, "deep": "size 5, with-in-loop-in-with + a jump-out leaf (1056 programs), plain function and coroutine, 3.11 and 3.12"}
     return {"grammar": "core", "size": 4, "depth": 3, "full_size": 3, "deep": "size 5, >= 2 with-blocks, plain function and coroutine, 3.11 and 3.12"}
 
 
@@ -34,6 +34,9 @@ def legs(tier):
     if tier != "quick":
         # size-5 programs with >= 2 with-blocks, on the interpreters whose exit-site resolution is bytecode-pattern based
         out += [Leg("3.12", 16, args={"deep": True}, name="3.12-deep"), Leg("3.11", 16, args={"deep": True}, name="3.11-deep")]
+    else:
+        # quick: the sub-family with a with-block inside a loop inside a with-block and a jump-out leaf (1 056 programs)
+        out += [Leg("3.12", 4, args={"deep": "jumpy"}, name="3.12-deep"), Leg("3.11", 4, args={"deep": "jumpy"}, name="3.11-deep")]
     return out
 
 
@@ -66,6 +69,30 @@ def count_withs(x):
     return sum(count_withs(st) for st in x)
 
 
+def with_loop_with(body):
+    """Is there a with-block inside a loop inside a with-block?"""
+    W = set(ps.WITH_KINDS)
+    hit = [False]
+
+    def walk(stmt, state):
+        k = stmt[0]
+        ns = state
+        if k in W:
+            if state == 2:
+                hit[0] = True
+            ns = max(state, 1)
+        elif k in ("for", "while", "whileelse"):
+            if state >= 1:
+                ns = 2
+        for b in stmt[1:]:
+            if isinstance(b, tuple):
+                for st in b:
+                    walk(st, ns)
+    for st in body:
+        walk(st, 0)
+    return hit[0]
+
+
 def deep_space():
     """thorough only: size-5 bodies (core grammar, no probe leaves - the probes inside every enter/exit suffice) that
     contain at least two with-blocks: the shapes where one block's exit sequence sits next to another block's code."""
@@ -79,7 +106,10 @@ def run(ctx):
     from vlib.ctxobs import run_program
     idx = 0
     if ctx.args.get("deep"):
+        jumpy = ctx.args.get("deep") == "jumpy"
         for body in deep_space():
+            if jumpy and not (with_loop_with(body) and ps.has(body, ("brk", "cont", "retK", "retV"))):
+                continue
             for kind in ("func", "coro"):
                 if not ps.kind_ok(body, kind):
                     continue
